@@ -383,20 +383,39 @@ func queues(h *vhandler, sp *peerSpec, c net.Conn) (outq, inq int) {
 func canary(rec *recorder, stop <-chan struct{}, wg *sync.WaitGroup, seed uint64) {
 	defer wg.Done()
 	rng := vsup.NewRng(seed)
+	// a held descriptor is either /dev/null or one end of a socket pair with bytes waiting to be read: if the
+	// framework ever reads from, writes to or closes a number it no longer owns, the canary notices
+	const pending = "CANARY-BYTES-NOBODY-MAY-READ"
 	type held struct {
-		f   *os.File
-		ino uint64
+		fd, peer int // peer: the other end of the pair (-1 for /dev/null)
+		ino      uint64
 	}
 	var mine []held
 	closeOne := func(i int) {
 		hd := mine[i]
 		mine = append(mine[:i], mine[i+1:]...)
 		var st unix.Stat_t
-		if err := unix.Fstat(int(hd.f.Fd()), &st); err != nil || st.Ino != hd.ino {
-			rec.emit("ForeignBroken", "fd", int(hd.f.Fd()))
+		why := ""
+		if err := unix.Fstat(hd.fd, &st); err != nil || st.Ino != hd.ino {
+			why = "identity"
+		} else if hd.peer >= 0 {
+			buf := make([]byte, 64)
+			n, _, err := unix.Recvfrom(hd.fd, buf, unix.MSG_PEEK|unix.MSG_DONTWAIT)
+			if err != nil || string(buf[:n]) != pending {
+				why = "pending bytes were consumed"
+			} else if m, _, err := unix.Recvfrom(hd.peer, buf, unix.MSG_PEEK|unix.MSG_DONTWAIT); err == nil && m > 0 {
+				why = "somebody wrote into it"
+			}
 		}
-		rec.emit("ForeignClose", "fd", int(hd.f.Fd()))
-		_ = hd.f.Close()
+		if why != "" {
+			rec.emit("ForeignBroken", "fd", hd.fd, "why", why)
+		}
+		rec.emit("ForeignClose", "fd", hd.fd)
+		_ = unix.Close(hd.fd)
+		if hd.peer >= 0 {
+			rec.emit("ForeignClose", "fd", hd.peer)
+			_ = unix.Close(hd.peer)
+		}
 	}
 	for {
 		select {
@@ -408,12 +427,20 @@ func canary(rec *recorder, stop <-chan struct{}, wg *sync.WaitGroup, seed uint64
 		default:
 		}
 		if len(mine) < 3 {
-			f, err := os.Open("/dev/null")
-			if err == nil {
+			if rng.Intn(2) == 0 {
+				if fd, err := unix.Open("/dev/null", unix.O_RDWR|unix.O_CLOEXEC, 0); err == nil {
+					var st unix.Stat_t
+					_ = unix.Fstat(fd, &st)
+					rec.emit("ForeignOpen", "fd", fd)
+					mine = append(mine, held{fd, -1, st.Ino})
+				}
+			} else if p, err := unix.Socketpair(unix.AF_UNIX, unix.SOCK_STREAM|unix.SOCK_CLOEXEC|unix.SOCK_NONBLOCK, 0); err == nil {
 				var st unix.Stat_t
-				_ = unix.Fstat(int(f.Fd()), &st)
-				rec.emit("ForeignOpen", "fd", int(f.Fd()))
-				mine = append(mine, held{f, st.Ino})
+				_ = unix.Fstat(p[0], &st)
+				rec.emit("ForeignOpen", "fd", p[0])
+				rec.emit("ForeignOpen", "fd", p[1])
+				_, _ = unix.Write(p[1], []byte(pending))
+				mine = append(mine, held{p[0], p[1], st.Ino})
 			}
 		}
 		if len(mine) > 0 && rng.Intn(2) == 0 {
